@@ -188,7 +188,7 @@ class WalkUnit(ApiUnit):
         return z3.Or(*[self.rt.oid.below(o, r.e) for r in self.roots])
 
     def on_yield(self, interp, frame, value):
-        if frame.func is None or frame.func.info.fullname != T_MULTIWALK:
+        if frame.func is None or frame.func.info.fullname != T_MULTIWALK or self.prop == "C14":
             return
         ctx = interp.ctx
         ok = isinstance(value, NT) and len(value) == 2 and isinstance(value[0], SOid)
@@ -232,6 +232,8 @@ class WalkUnit(ApiUnit):
 
     def invariant(self, interp, frame, when):
         oidt, ag = self.rt.oid, self.agent
+        if self.prop == "C14" and when != "assume":
+            return []        # C14 only needs: state in locals (frame) and own request ids; exactness is C01/C02
         entries, arr = self._state(interp, frame)
         x = z3.Const("x", OID)
         lt, below = oidt.lt, oidt.below
@@ -336,6 +338,8 @@ class WalkUnit(ApiUnit):
         except PyExc as pe:
             exc = pe.obj
         base = oname(self.prop, self.target, "exit", "")
+        if self.prop == "C14":
+            return "done"
         self.kcheck(ctx, base + "no-exception-against-a-conformant-agent", exc is None)
         if exc is not None:
             return "raises:%s" % exc.cls.name
@@ -569,3 +573,8 @@ def units_c03(tier):
             for act in subsets(n):
                 us.append(FaultyWalkUnit(n, m, errors, "step", act))
     return us
+
+
+def units_c14(tier):
+    """the walk pipeline keeps its state in locals: frame obligations and request-id obligations under C14"""
+    return walk_units("C14", 1, None) + walk_units("C14", 1, 2) + walk_units("C14", 2, None)
